@@ -26,6 +26,9 @@ CONSTANTS
   ReuseEvicted = FALSE
   SharedKey = FALSE
   ChargeBeforeFit = FALSE
+  LimitInternal = FALSE
+  Aliases = {}
+  AliasTarget = "q1"
 INIT Init
 NEXT Next
 CHECK_DEADLOCK FALSE
